@@ -15,6 +15,7 @@ def check(ctx):
     n3 = filters.check_skeleton(ctx, rep)
     n4 = filters.check_operators(ctx, rep)
     n5 = filters.check_display_separators(ctx, rep)
+    filters.check_parens_display(ctx, rep)
     rep.floor("Display separators (Or, And, Path)", n5, 3)
     n6 = filters.check_whitespace_siblings(ctx, rep)
     rep.floor("white-space skipping sites in the filter lexer", n6, 4)
